@@ -25,6 +25,7 @@ type Ev struct {
 	I       int    `json:"i"`
 	Max     int    `json:"max"`
 	Pp      string `json:"pp"`  // partial-write pattern of the transport
+	Dm      string `json:"dm"`  // "" = the transport completes inside the call; "slot" / "queue" = deferred completions
 	Api     string `json:"api"` // Write | AsyncWrite | WriteFrame | AsyncWriteFrame | Close | AsyncClose
 	Src     string `json:"src"` // msg | acq | newm | newp | ctl
 	Id      int    `json:"id"`
@@ -48,10 +49,25 @@ type Ev struct {
 
 type transport struct {
 	pp       string
-	calls    int // write calls so far (drives the pattern)
+	dm       string // "": inline; "slot": one write record, overwritten like sonic.AsyncAdapter's; "queue": writes are queued
+	calls    int    // write calls so far (drives the pattern)
 	out      []byte
 	incoming []byte
 	writes   int
+
+	// deferred mode
+	wq  []*parkedWrite // outstanding asynchronous writes (slot: at most one)
+	rb  []byte         // parked asynchronous read
+	rcb sonic.AsyncCallback
+}
+
+// parkedWrite is an asynchronous write the transport has not completed yet. The
+// bytes are taken from the caller's slice when they go out, as a socket does.
+type parkedWrite struct {
+	b     []byte
+	all   bool
+	sofar int
+	cb    sonic.AsyncCallback
 }
 
 var _ sonic.Stream = &transport{}
@@ -93,12 +109,71 @@ func (t *transport) Write(b []byte) (int, error) {
 }
 
 func (t *transport) AsyncWrite(b []byte, cb sonic.AsyncCallback) {
+	if t.dm != "" {
+		t.park(&parkedWrite{b: b, cb: cb})
+		return
+	}
 	n, err := t.Write(b)
 	cb(err, n)
 }
 
+func (t *transport) park(w *parkedWrite) {
+	if t.dm == "slot" {
+		t.wq = []*parkedWrite{w} // asyncAdapterWriteReactor.init: buffer, progress and callback are overwritten
+	} else {
+		t.wq = append(t.wq, w)
+	}
+}
+
+// accept lets the transport take bytes of the oldest outstanding write.
+// part: one grant of the pattern that leaves the write incomplete (nothing if
+// a single byte is left); else the rest, which completes it. Returns whether
+// a write was outstanding.
+func (t *transport) accept(part bool) bool {
+	if len(t.wq) == 0 {
+		return false
+	}
+	w := t.wq[0]
+	rest := len(w.b) - w.sofar
+	if part {
+		g := t.grant(rest)
+		if t.pp == "all" {
+			g = (rest + 1) / 2
+		}
+		if g >= rest {
+			g = rest - 1
+		}
+		if g > 0 {
+			t.out = append(t.out, w.b[w.sofar:w.sofar+g]...)
+			w.sofar += g
+			t.writes++
+		}
+		if w.all || g <= 0 {
+			return true
+		}
+		// AsyncWrite (not All) completes with the partial count
+	} else {
+		for w.sofar < len(w.b) {
+			g := t.grant(len(w.b) - w.sofar)
+			t.out = append(t.out, w.b[w.sofar:w.sofar+g]...)
+			w.sofar += g
+			t.writes++
+			if !w.all {
+				break
+			}
+		}
+	}
+	t.wq = t.wq[1:]
+	w.cb(nil, w.sofar)
+	return true
+}
+
 // AsyncWriteAll: exactly len(b) bytes, through as many partial writes as the pattern dictates.
 func (t *transport) AsyncWriteAll(b []byte, cb sonic.AsyncCallback) {
+	if t.dm != "" {
+		t.park(&parkedWrite{b: b, all: true, cb: cb})
+		return
+	}
 	done := 0
 	for done < len(b) {
 		n, _ := t.Write(b[done:])
@@ -120,8 +195,24 @@ func (t *transport) Read(b []byte) (int, error) {
 }
 
 func (t *transport) AsyncRead(b []byte, cb sonic.AsyncCallback) {
+	if t.dm != "" {
+		t.rb, t.rcb = b, cb // one read record; completes when the driver delivers
+		return
+	}
 	n, err := t.Read(b)
 	cb(err, n)
+}
+
+// deliver completes the parked asynchronous read with what the peer sent.
+func (t *transport) deliver() bool {
+	if t.rcb == nil || len(t.incoming) == 0 {
+		return false
+	}
+	b, cb := t.rb, t.rcb
+	t.rb, t.rcb = nil, nil
+	n, err := t.Read(b)
+	cb(err, n)
+	return true
 }
 
 func (t *transport) AsyncReadAll(b []byte, cb sonic.AsyncCallback) {
@@ -266,16 +357,21 @@ func errClass(err error) string {
 }
 
 type scenario struct {
-	w      *tr.Writer
-	sid, i int
-	ioc    *sonic.IO
-	ws     *websocket.Stream
-	t      *transport
-	parsed int            // bytes of t.out already parsed into frames
-	subs   map[int][]byte // id -> payload the wire must carry
-	obs    []Ev           // observed events (for drift)
-	lens   map[int]bool
-	dead   bool
+	w       *tr.Writer
+	sid, i  int
+	ioc     *sonic.IO
+	ws      *websocket.Stream
+	t       *transport
+	parsed  int            // bytes of t.out already parsed into frames
+	subs    map[int][]byte // id -> payload the wire must carry
+	matched map[int]bool   // submissions already matched to a wire frame
+	obs     []Ev           // observed events (for drift)
+	lens    map[int]bool
+	dead    bool
+
+	// deferred transport: the application's read loop
+	curPing *Ev // the ping being delivered (its Ping event is emitted from the read callback)
+	pinged  bool
 }
 
 func (s *scenario) emit(e Ev) {
@@ -288,16 +384,30 @@ func (s *scenario) emit(e Ev) {
 	s.obs = append(s.obs, e)
 }
 
+// pid: the submission whose payload the un-masked wire payload equals. Two
+// submissions can carry the same bytes (two Close frames with the bare status
+// code): the oldest one not yet matched to a wire frame is taken.
 func (s *scenario) pid(p []byte) int {
 	if len(p) == 0 {
 		return -2
 	}
-	best := -1
+	best, bestSeen := -1, -1
 	for id, want := range s.subs {
-		if len(want) == len(p) && bytes.Equal(want, p) && (best == -1 || id < best) {
+		if len(want) != len(p) || !bytes.Equal(want, p) {
+			continue
+		}
+		if s.matched[id] {
+			if bestSeen == -1 || id < bestSeen {
+				bestSeen = id
+			}
+		} else if best == -1 || id < best {
 			best = id
 		}
 	}
+	if best == -1 {
+		return bestSeen
+	}
+	s.matched[best] = true
 	return best
 }
 
@@ -397,12 +507,78 @@ func (s *scenario) call(g Ev) {
 		e.Cb = cbs
 		if cbs == 0 {
 			e.Err = "nocb"
+			if s.t.dm != "" {
+				e.Err = "parked" // accepted; the transport has not completed the write yet
+			}
 		} else {
 			e.Err = errClass(cberr)
 		}
 	}
 	s.emit(e)
 	s.scan()
+}
+
+// ---- deferred transport ------------------------------------------------------
+
+// armRead keeps an AsyncNextFrame in flight, as an application's read loop does:
+// the callback re-arms the read, which flushes the Pong the stream has queued
+// (at once, or by waiting for the flush in flight).
+func (s *scenario) armRead() {
+	s.ws.AsyncNextFrame(func(err error, f websocket.Frame) {
+		if g := s.curPing; g != nil {
+			s.curPing = nil
+			s.pinged = true
+			e := Ev{Ev: "Ping", Id: g.Id, Plen: g.Plen, Op: 9, Fin: 1, Err: errClass(err)}
+			if err == nil && !(f.Opcode() == websocket.OpcodePing && bytes.Equal(f.Payload(), s.subs[g.Id])) {
+				e.Err = "other"
+			}
+			if e.Err == "nil" && s.ws.State() != websocket.StateActive {
+				e.Err = "inactive" // a ping read after the local Close is not answered
+			}
+			s.emit(e)
+		}
+		if err == nil {
+			s.armRead()
+		}
+	})
+}
+
+// pingDeferred: the peer's ping reaches the parked read. If the read loop is
+// not parked on the transport (it waits for a flush), the step is skipped.
+func (s *scenario) pingDeferred(g Ev) {
+	if s.t.rcb == nil {
+		return
+	}
+	payload := genPayload(g.Id, g.Plen)
+	s.subs[g.Id] = payload
+	s.t.incoming = append(s.t.incoming, 0x89, byte(g.Plen))
+	s.t.incoming = append(s.t.incoming, payload...)
+	s.curPing, s.pinged = &g, false
+	cls := s.guarded(func() error { s.t.deliver(); return nil })
+	if cls == "panic" {
+		s.emit(Ev{Ev: "Ping", Id: g.Id, Plen: g.Plen, Op: 9, Fin: 1, Err: "panic"})
+	}
+	s.curPing = nil
+	s.scan()
+}
+
+func (s *scenario) acc(g Ev) {
+	s.emit(Ev{Ev: "Acc", N: g.N})
+	if cls := s.guarded(func() error { s.t.accept(g.N == 1); return nil }); cls == "panic" {
+		s.emit(Ev{Ev: "Call", Api: "Acc", Src: "transport", Err: "panic"})
+	}
+	s.scan()
+}
+
+// drainDeferred: the transport accepts everything that is outstanding.
+func (s *scenario) drainDeferred() {
+	for i := 0; i < 100000 && !s.dead; i++ {
+		progressed := false
+		s.guarded(func() error { progressed = s.t.accept(false); return nil })
+		if !progressed {
+			return
+		}
+	}
 }
 
 func (s *scenario) ping(g Ev) {
@@ -435,14 +611,19 @@ func (s *scenario) play(steps []Ev, sum *tr.Summary) error {
 		return err
 	}
 	ws.SetMaxMessageSize(g0.Max)
-	s.t = &transport{pp: g0.Pp}
+	s.t = &transport{pp: g0.Pp, dm: g0.Dm}
 	if err := ws.VerifAttach(s.t); err != nil {
 		return err
 	}
 	s.ws = ws
 	s.subs = map[int][]byte{}
+	s.matched = map[int]bool{}
 	s.lens = map[int]bool{}
-	s.emit(Ev{Ev: "New", Max: g0.Max, Pp: g0.Pp})
+	s.emit(Ev{Ev: "New", Max: g0.Max, Pp: g0.Pp, Dm: g0.Dm})
+	deferred := g0.Dm != ""
+	if deferred {
+		s.armRead()
+	}
 	for _, g := range steps[1:] {
 		if s.dead {
 			break
@@ -451,7 +632,13 @@ func (s *scenario) play(steps []Ev, sum *tr.Summary) error {
 		case "Call":
 			s.call(g)
 		case "Ping":
-			s.ping(g)
+			if deferred {
+				s.pingDeferred(g)
+			} else {
+				s.ping(g)
+			}
+		case "Acc":
+			s.acc(g)
 		case "Wire", "End":
 			// predictions of the model, not steps
 		default:
@@ -459,7 +646,13 @@ func (s *scenario) play(steps []Ev, sum *tr.Summary) error {
 		}
 	}
 	end := Ev{Ev: "End"}
-	if !s.dead {
+	if !s.dead && deferred {
+		// run the transport until nothing is outstanding, flush once more, again
+		s.drainDeferred()
+		end.Err = s.guarded(func() error { s.ws.AsyncFlush(func(error) {}); return nil })
+		s.drainDeferred()
+		s.scan()
+	} else if !s.dead {
 		end.Err = s.guarded(func() error { return s.ws.Flush() })
 		s.scan()
 	}
@@ -471,6 +664,8 @@ func (s *scenario) play(steps []Ev, sum *tr.Summary) error {
 		switch e.Ev {
 		case "Call", "Ping":
 			return fmt.Sprintf("%s/%s/%d/%s", e.Ev, e.Api, e.Id, e.Err)
+		case "Acc":
+			return fmt.Sprintf("Acc/%d", e.N)
 		case "Wire":
 			return fmt.Sprintf("Wire/%d/%d/%d/%d/%d/%d", e.Op, e.Fin, e.M, e.Dl, e.Minimal, e.Pid)
 		case "End":
